@@ -53,4 +53,11 @@ def tv_vectors(tier):
     out.append(("c11_action", dict(identity=0), dict(ar=0.2, ap=0.1, ay=-0.4, tx=1.0, ty=2.0, tz=3.0, x=0.5, y=-0.5, z=2.0, roll=0.3, pitch=0.2, yaw=1.0)))
     out.append(("c11_ellipse", dict(pose=0), dict(caa=4.0, cab=1.0, cbb=2.0, sigma=3.0, x=1.0, y=2.0)))
     out.append(("c11_ellipse", dict(pose=0), dict(caa=4.0, cab=2.0, cbb=1.0, sigma=1.0, x=0.0, y=0.0)))
+    # rank-deficient, not axis aligned (outer products v v^T): executed concretely with the real decomposition
+    for vx, vy in ((29.102, 7.2852), (3.1, 1.7), (0.37, -2.9), (-11.3, 0.77)):
+        for pose in (0, 1):
+            w = dict(caa=vx * vx, cab=vx * vy, cbb=vy * vy, sigma=0.5, x=1.0, y=-1.0)
+            if pose:
+                w.update(yaw=0.3, cyy=0.01, cxy=0.0)
+            out.append(("c11_ellipse", dict(pose=pose), w))
     return out
